@@ -244,7 +244,7 @@ func (f *Formula) Subst(m func(t *Term) *Formula) *Formula {
 	return rec(f)
 }
 
-const maxAtoms = 22
+const maxAtoms = 64
 
 // theory: pairs of atoms that cannot both be true (a<b with b<a; a<b with a==b), derived
 // syntactically from the canonical comparison atoms. Only genuinely inconsistent assignments
@@ -274,17 +274,58 @@ func theoryExclusions(atoms []*Term) []exclusion {
 	return ex
 }
 
-// Assignment is one row of a truth table.
+// Assignment is one row (or one cube: a partial row whose unassigned atoms are don't-cares)
+// of a truth table.
 type Assignment map[string]bool
 
-// forEachModel enumerates the theory-consistent assignments over atoms satisfying f and calls
-// fn; fn returning false stops the enumeration. Returns an error when there are too many atoms.
+// assign substitutes a truth value for one atom and simplifies.
+func (f *Formula) assign(key string, val bool, memo map[*Formula]*Formula) *Formula {
+	if r, ok := memo[f]; ok {
+		return r
+	}
+	var r *Formula
+	switch f.kind {
+	case fTrue, fFalse:
+		r = f
+	case fAtom:
+		if f.atom.Key() == key {
+			if val {
+				r = FTrue
+			} else {
+				r = FFalse
+			}
+		} else {
+			r = f
+		}
+	case fNot:
+		r = Not(f.args[0].assign(key, val, memo))
+	case fAnd, fOr:
+		as := make([]*Formula, len(f.args))
+		for i, a := range f.args {
+			as[i] = a.assign(key, val, memo)
+		}
+		r = nary(f.kind, as)
+	}
+	memo[f] = r
+	return r
+}
+
+var modelBudget = 400000
+
+// forEachModel enumerates the truth table of f by Shannon expansion: it splits on one atom at a
+// time, simplifies, and stops descending as soon as the residual formula is constant. Every
+// theory-consistent total assignment satisfying f extends exactly one reported cube, so
+// quantifying over the cubes is quantifying over the rows. fn returning false stops.
 func forEachModel(f *Formula, extraAtoms []*Term, fn func(asg Assignment) bool) error {
+	return forEachModelOver(f, nil, fn)
+}
+
+// forEachModelOver is forEachModel restricted to the atoms satisfying relevant (nil = all):
+// the other atoms are existentially quantified — a cube over the relevant atoms is reported
+// iff the residual formula is satisfiable.
+func forEachModelOver(f *Formula, relevant func(*Term) bool, fn func(asg Assignment) bool) error {
 	am := map[string]*Term{}
 	for _, t := range f.Atoms() {
-		am[t.Key()] = t
-	}
-	for _, t := range extraAtoms {
 		am[t.Key()] = t
 	}
 	var atoms []*Term
@@ -295,30 +336,93 @@ func forEachModel(f *Formula, extraAtoms []*Term, fn func(asg Assignment) bool) 
 	if len(atoms) > maxAtoms {
 		return fmt.Errorf("too many atoms (%d > %d)", len(atoms), maxAtoms)
 	}
-	ex := theoryExclusions(atoms)
-	n := len(atoms)
-	asg := make(Assignment, n)
-rows:
-	for mask := 0; mask < 1<<uint(n); mask++ {
-		for _, e := range ex {
-			if mask&(1<<uint(e.i)) != 0 && mask&(1<<uint(e.j)) != 0 {
-				continue rows
-			}
+	excl := map[string][]string{}
+	for _, e := range theoryExclusions(atoms) {
+		a, b := atoms[e.i].Key(), atoms[e.j].Key()
+		excl[a] = append(excl[a], b)
+		excl[b] = append(excl[b], a)
+	}
+	steps := 0
+	stop := false
+	var rec func(g *Formula, asg Assignment) error
+	rec = func(g *Formula, asg Assignment) error {
+		if stop {
+			return nil
 		}
-		for i, a := range atoms {
-			asg[a.Key()] = mask&(1<<uint(i)) != 0
+		steps++
+		if steps > modelBudget {
+			return fmt.Errorf("truth-table budget exceeded (%d expansion steps, %d atoms)", steps, len(atoms))
 		}
-		if f.eval(asg, map[*Formula]bool{}) {
-			cp := make(Assignment, n)
+		if g == FFalse {
+			return nil
+		}
+		if g == FTrue {
+			cp := make(Assignment, len(asg))
 			for k, v := range asg {
 				cp[k] = v
 			}
 			if !fn(cp) {
+				stop = true
+			}
+			return nil
+		}
+		// pick the first unassigned (relevant) atom occurring in g
+		var pick string
+		for _, t := range g.Atoms() {
+			if relevant == nil || relevant(t) {
+				pick = t.Key()
+				break
+			}
+		}
+		if pick == "" {
+			// only irrelevant atoms left: report the cube iff the residual is satisfiable
+			sat := false
+			if err := forEachModelOver(g, nil, func(Assignment) bool { sat = true; return false }); err != nil {
+				return err
+			}
+			if sat {
+				cp := make(Assignment, len(asg))
+				for k, v := range asg {
+					cp[k] = v
+				}
+				if !fn(cp) {
+					stop = true
+				}
+			}
+			return nil
+		}
+		for _, val := range []bool{true, false} {
+			h := g.assign(pick, val, map[*Formula]*Formula{})
+			asg[pick] = val
+			var forced []string
+			if val {
+				// theory propagation: partners of a true comparison are false
+				for _, other := range excl[pick] {
+					if v, ok := asg[other]; ok {
+						if v {
+							h = FFalse
+						}
+						continue
+					}
+					h = h.assign(other, false, map[*Formula]*Formula{})
+					asg[other] = false
+					forced = append(forced, other)
+				}
+			}
+			if err := rec(h, asg); err != nil {
+				return err
+			}
+			for _, o := range forced {
+				delete(asg, o)
+			}
+			delete(asg, pick)
+			if stop {
 				return nil
 			}
 		}
+		return nil
 	}
-	return nil
+	return rec(f, Assignment{})
 }
 
 // Entails decides a ⇒ b by truth table. On failure it returns a falsifying assignment
@@ -352,8 +456,12 @@ func Equivalent(a, b *Formula) (bool, string, error) {
 func renderAssignment(f *Formula, asg Assignment) string {
 	var parts []string
 	for _, t := range f.Atoms() {
+		val, ok := asg[t.Key()]
+		if !ok {
+			continue
+		}
 		v := "F"
-		if asg[t.Key()] {
+		if val {
 			v = "T"
 		}
 		parts = append(parts, fmt.Sprintf("%s=%s", t.String(), v))
